@@ -39,6 +39,7 @@ RULE = (
     " re-send), both under the current settings."
     " Step \"prepared\": two reconfigure() objects created up front, a permanent configure(), t"
     "hen both entered nested."
+    " 320 reconfigure() blocks on one client, two thirds left by an exception."
 )
 ASSUMPTIONS = [
     "a configure() inside a reconfigure() block is undone when the block exits (the block restores the snapshot taken at entry)",
